@@ -1,4 +1,12 @@
-"""Gen.CtrlMethods: the public methods of `ControlStateMachine` (gem/control_state_machine.py) as ordered statement lists.
+"""Gen.CtrlMethods: the public methods of `ControlStateMachine` (gem/control_state_machine.py) as ordered statement lists, and the
+bodies of the callbacks its constructor registers on state events.
+
+Registered handlers (`handlers`): for every `self.<state>.events.<enter|leave>.register(self.<method>)` in `__init__`, in registration
+order, the *body* of the registered method as branch rows `(attribute, value | "*", transition)`:
+    if self.<attr> == "<v1>": self._perform_transition("<t1>")  elif self.<attr> == "<v2>": ...  else: self._perform_transition("<tn>")
+(an unconditional `self._perform_transition("<t>")` is the row `("", "*", "<t>")`; a branch that requests nothing has transition `""`).  The entry is keyed by the state's display name,
+the event and its position; the method's *name* is carried only as a label — renaming a private callback changes nothing.
+Anything else in such a body is a broken tie (T-BREAK).
 
 Each public method (name not starting with `_`, not a property) must consist, after its docstring, only of
   * `self._perform_transition("<name>")`                      -> ("perform", "<name>", "")
@@ -45,9 +53,80 @@ def unit_CtrlMethods():
     if not rows:
         raise G.P.Untranslatable("ControlStateMachine: no public methods found")
 
+    # ---- callbacks registered on state events in __init__: (state display name, event, label, rows)
+    init = next(i for i in cls.body if isinstance(i, ast.FunctionDef) and i.name == "__init__")
+    funcs = {i.name: i for i in cls.body if isinstance(i, ast.FunctionDef)}
+    state_names = {}
+    for st in ast.walk(init):
+        if isinstance(st, (ast.Assign, ast.AnnAssign)):
+            tgt = st.targets[0] if isinstance(st, ast.Assign) else st.target
+            val = st.value
+            if self_attr(tgt) and isinstance(val, ast.Call) and G.P.dotted(val.func) in ("secsgem.common.State", "State") and len(val.args) >= 2:
+                state_names[self_attr(tgt)] = ast.literal_eval(val.args[1])
+
+    def perform_of(stmts, where):
+        out = []
+        for st in stmts:
+            if isinstance(st, ast.Expr) and isinstance(st.value, ast.Call) and G.P.dotted(st.value.func) == "self._perform_transition" \
+                    and len(st.value.args) == 1 and isinstance(st.value.args[0], ast.Constant):
+                out.append(st.value.args[0].value)
+            elif isinstance(st, ast.Pass):
+                continue
+            else:
+                raise G.P.Untranslatable(f"{where}: statement {ast.unparse(st)[:80]!r}")
+        return out
+
+    def one(trs, where):
+        if len(trs) > 1:
+            raise G.P.Untranslatable(f"{where}: more than one _perform_transition in a branch")
+        return trs[0] if trs else ""   # "" = the branch requests nothing
+
+    def body_rows(fn):
+        rows_ = []
+        body = list(fn.body)
+        if body and isinstance(body[0], ast.Expr) and isinstance(body[0].value, ast.Constant) and isinstance(body[0].value.value, str):
+            body = body[1:]
+        if len(body) != 1:
+            raise G.P.Untranslatable(f"{fn.name}: a registered handler must be one if/elif/else chain or one _perform_transition call")
+        for st in body:
+            node = st
+            if isinstance(node, ast.If):
+                while isinstance(node, ast.If):
+                    t = node.test
+                    if not (isinstance(t, ast.Compare) and len(t.ops) == 1 and isinstance(t.ops[0], ast.Eq) and self_attr(t.left)
+                            and isinstance(t.comparators[0], ast.Constant) and isinstance(t.comparators[0].value, str)):
+                        raise G.P.Untranslatable(f"{fn.name}: condition {ast.unparse(t)[:80]!r}")
+                    attr = self_attr(t.left)
+                    rows_.append((attr, t.comparators[0].value, one(perform_of(node.body, fn.name), fn.name)))
+                    if len(node.orelse) == 1 and isinstance(node.orelse[0], ast.If):
+                        node = node.orelse[0]
+                    else:
+                        if node.orelse:
+                            rows_.append((attr, "*", one(perform_of(node.orelse, fn.name), fn.name)))
+                        node = None
+            else:
+                for tr in perform_of([st], fn.name):
+                    rows_.append(("", "*", tr))
+        return rows_
+
+    handlers = []
+    for st in init.body:
+        for call in ast.walk(st):
+            if isinstance(call, ast.Call) and isinstance(call.func, ast.Attribute) and call.func.attr == "register" and len(call.args) == 1:
+                chain = G.P.dotted(call.func.value) or ""
+                parts = chain.split(".")
+                if len(parts) == 4 and parts[0] == "self" and parts[2] == "events":
+                    meth = self_attr(call.args[0])
+                    if parts[1] not in state_names:
+                        raise G.P.Untranslatable(f"register on unknown state attribute {parts[1]}")
+                    if meth is None or meth not in funcs:
+                        raise G.P.Untranslatable(f"{chain}.register({ast.unparse(call.args[0])[:60]}): not a method of the class")
+                    handlers.append((state_names[parts[1]], parts[3], meth, body_rows(funcs[meth])))
+
     def q(s):
         return '"' + s.replace("\\", "\\\\").replace('"', '\\"') + '"'
     body = ",\n    ".join(f"({q(n)}, [{', '.join(f'({q(k)}, {q(a)}, {q(b)})' for k, a, b in st)}])" for n, st in rows)
+    hbody = ",\n    ".join(f"({q(sn)}, {q(ev)}, {q(lab)}, [{', '.join(f'({q(a)}, {q(v)}, {q(t)})' for a, v, t in rws)}])" for sn, ev, lab, rws in handlers)
     text = G.HEADER.format(src=rel) + f"""
 namespace SecsModel.Gen.CtrlMethods
 
@@ -56,10 +135,16 @@ namespace SecsModel.Gen.CtrlMethods
 def methods : List (String × List (String × String × String)) := [
     {body}]
 
+/-- callbacks registered on state events by `ControlStateMachine.__init__`, in registration order:
+(state display name, event, label = the method's name (not used by the model), body as branch rows
+`(attribute, value or "*" for else / unconditional, transition requested)`) -/
+def handlers : List (String × String × String × List (String × String × String)) := [
+    {hbody}]
+
 end SecsModel.Gen.CtrlMethods
 """
     G.write("CtrlMethods", text)
-    G.FACTS["CtrlMethods"] = [(n, st) for n, st in rows]
+    G.FACTS["CtrlMethods"] = {"methods": [(n, st) for n, st in rows], "handlers": handlers}
 
 
 UNITS = {"CtrlMethods": unit_CtrlMethods}
